@@ -26,7 +26,7 @@ class C09(Prop):
                 "NV.C09.slot_search_as_modelled", "NV.C09.process_io_as_modelled", "NV.C09.remove_tests_as_modelled",
                 "NV.C09.apply_sites_as_modelled", "NV.C09.guards_present", "NV.C09.apply_touch_as_modelled",
                 "NV.C09.input_to_call_as_modelled", "NV.C09.set_call_as_modelled", "NV.C09.prompt_as_modelled",
-                "NV.C09.command_branches_as_modelled", "NV.C09.preload_as_modelled",
+                "NV.C09.command_branches_as_modelled", "NV.C09.preload_as_modelled", "NV.C09.error_handler_stmts_as_modelled",
                 "NV.C09.batch_any_order_good", "NV.C09.stale_event_skipped", "NV.C09.freed_record_events_are_stale",
                 "NV.C09.accept_serial_fresh", "NV.C09.applyAction_resolved", "NV.C09.pending_entry_older_than_any_accept",
                 "NV.C09.abandoned_suffix", "NV.C09.abandoned_nil_of_ok", "NV.C09.findConn_id",
@@ -242,6 +242,9 @@ class C09(Prop):
             return [t for _, t in sorted(hits)]
 
         cmp_sites = {}
+        b = body_of(ec, r"\nvoid error_handler \(const char \*err\)\s*\{")
+        cmp_sites["errorHandlerStmts"] = conds_and_updates(b, ["in_error", "in_mudlib_error_handler", "mudlib_error_handler_context",
+                                                               "current_heart_beat"])
         b = body_of(back, r"\nint set_heart_beat \(object_t \* ob, int to\)\s*\{")
         if b is None:
             raise X.TieBroken("set_heart_beat()", "cannot locate set_heart_beat()")
